@@ -578,7 +578,30 @@ class ObjEval(BlockEval):
                 raise FevalError("too many steps")
             if isinstance(st, ast.Expr) and isinstance(st.value, ast.Constant):
                 continue
-            if isinstance(st, (ast.Pass, ast.Import, ast.ImportFrom)):
+            if isinstance(st, (ast.Pass, ast.Import, ast.ImportFrom, ast.Nonlocal)):
+                continue
+            if isinstance(st, ast.FunctionDef):
+                # a helper defined inside the function: it runs in the frame that defines it, which is exact when it has no parameters
+                # and every name it binds is declared nonlocal (the only form accepted)
+                a = st.args
+                bound = {t.id for t in ast.walk(st) if isinstance(t, ast.Name) and isinstance(t.ctx, ast.Store)}
+                declared = {x for n in ast.walk(st) if isinstance(n, ast.Nonlocal) for x in n.names}
+                if a.args or a.posonlyargs or a.kwonlyargs or a.vararg or a.kwarg or st.decorator_list or bound - declared \
+                        or any(isinstance(n, (ast.Yield, ast.YieldFrom, ast.Lambda)) or (isinstance(n, ast.FunctionDef) and n is not st) for n in ast.walk(st)):
+                    raise FevalError(f"nested function {st.name} is not a parameterless helper over nonlocal names")
+
+                def _closure(_st=st, _env=env):
+                    self.depth += 1
+                    if self.depth > 20:
+                        raise FevalError("recursion too deep")
+                    try:
+                        self.exec(_st.body, _env)
+                        return None
+                    except _Ret as ret:
+                        return ret.value
+                    finally:
+                        self.depth -= 1
+                env[st.name] = _closure
                 continue
             if isinstance(st, ast.Return):
                 raise _Ret(self.ev(st.value, env) if st.value is not None else None)
@@ -771,6 +794,8 @@ class ObjEval(BlockEval):
                 raise FevalError(f"method {m}")
             if isinstance(base, dict) and m in base and callable(base[m]):
                 return base[m](*args, **kwargs)  # a module modelled as a dict of names
+            if isinstance(base, type) and (base.__name__, m) in (("int", "from_bytes"), ("chain", "from_iterable"), ("bytes", "fromhex"), ("dict", "fromkeys")):
+                return getattr(base, m)(*args, **kwargs)  # alternative constructors of immutable / fresh values
             if isinstance(base, (int, float, complex, str, bytes)) and not m.startswith("_") and hasattr(base, m):
                 return getattr(base, m)(*args, **kwargs)  # methods of immutable scalars are pure
             if isinstance(base, (dict, list, set, tuple, frozenset, str)) and m in (
